@@ -161,6 +161,9 @@ type Case struct {
 	ExtCase string `json:"ext_case,omitempty"`
 	// PDF only: the header version ("" = 1.7); 2.0 is ISO 32000-2
 	PDFVersion string `json:"pdf_version,omitempty"`
+	// Swap: after the case has been judged, the file is overwritten with a valid document of this format (same
+	// name) and judged again
+	Swap string `json:"swap,omitempty"`
 }
 
 func init() { vr.Register("admit", checkCase) }
@@ -316,15 +319,30 @@ func openAll(path string) map[string]outcome {
 }
 
 func checkCase(c Case) error {
-	data, err := c.build()
-	if err != nil {
-		return fmt.Errorf("INFRA: writer: %v", err)
-	}
 	dir, err := os.MkdirTemp(tmpDir, "c")
 	if err != nil {
 		return fmt.Errorf("INFRA: %v", err)
 	}
 	defer os.RemoveAll(dir)
+	if err := judge(c, dir); err != nil {
+		return err
+	}
+	if c.Swap != "" {
+		// the same path now holds another document: admission looks at the bytes that are there now
+		second := Case{Format: c.Swap, Token: c.Token + "second", FileName: c.FileName, Chapters: 1}
+		if err := judge(second, dir); err != nil {
+			return fmt.Errorf("after %s content at the same path was replaced by %s content: %v", c.Format, c.Swap, err)
+		}
+	}
+	return nil
+}
+
+// judge writes the case's document under its file name into dir and checks every clause.
+func judge(c Case, dir string) error {
+	data, err := c.build()
+	if err != nil {
+		return fmt.Errorf("INFRA: writer: %v", err)
+	}
 	path := filepath.Join(dir, c.FileName)
 	if err := os.WriteFile(path, data, 0o644); err != nil {
 		return fmt.Errorf("INFRA: %v", err)
@@ -532,6 +550,12 @@ func genAdmission(t *rapid.T) Case {
 		c.Chapters = rapid.IntRange(1, 3).Draw(t, "chapters")
 		c.ExtCase = rapid.SampledFrom([]string{"", "", "upper", "mixed"}).Draw(t, "extCase")
 	}
+	if rapid.IntRange(0, 3).Draw(t, "swap") == 0 {
+		c.Swap = rapid.SampledFrom(formats).Draw(t, "swapFormat")
+		if c.Swap == f {
+			c.Swap = ""
+		}
+	}
 	if f == "pdf" {
 		c.PDFVersion = rapid.SampledFrom([]string{"", "1.4", "1.0", "2.0", "2.0"}).Draw(t, "pdfVersion")
 	}
@@ -602,6 +626,9 @@ func meta(c Case) vr.Meta {
 	sort.Strings(labels)
 	if c.PDFVersion != "" {
 		labels = append(labels, "pdf-version:"+c.PDFVersion)
+	}
+	if c.Swap != "" {
+		labels = append(labels, "file-replaced-by-another-format")
 	}
 	if c.ExtCase != "" {
 		labels = append(labels, "chapter-extension:"+c.ExtCase)
